@@ -198,6 +198,8 @@ func TestCheck(t *testing.T) {
 		}
 	}
 
+	writerCases(s, thorough)
+
 	if s.Replay == nil {
 		s.AddStats(qx.ExploreAll(t, items, s.Remaining())...)
 	}
